@@ -43,7 +43,7 @@ NOSYM = ["NOP", "RET", "RETF", "SC", "RC", "HALT", "SWAP A", "MV A, 0x{b}", "MV 
 SYM = ["JP {L}", "JPZ {L}", "JPNZ {L}", "JPC {L}", "JPNC {L}", "CALL {L}", "CALLF {L}", "JPF {L}", "MV X, {L}", "MV A, [{L}]", "MV [{L}], A",
        "defl {L}", "MV Y, {L}"]
 DATA = ["defb 0x{b}", "defb 1, 2, 0x{b}", "defw 0x{w}", "defw 0x{w}, 0x{w}", "defl 0x{l}", "defl 0x{x}", "defl 0x{x}, 0x{l}",
-        "defs {n}", "defm \"{t}\""]
+        "defs {n}", "defm \"{t}\"", "defm \"{t}\"", "defm \"{e}\""]
 NEAR = ("JP ", "JPZ ", "JPNZ ", "JPC ", "JPNC ", "CALL ")
 # a label with a small value (defined within the first statements of a program that starts at origin 0) used where
 # the operand is one byte: the displacement of [r3+n] / [(n)+d] forms and an 8-bit immediate
@@ -107,7 +107,9 @@ def _fill(t: str, r: Rng) -> str:
     return (t.replace("{b}", f"{r.below(256):02X}").replace("{w}", f"{r.below(65536):04X}")
             .replace("{l}", f"{r.below(0x100000):05X}").replace("{x}", f"{r.below(0x1000000):06X}").replace("{i}", f"{r.below(0xD4):02X}")
             .replace("{r}", f"{r.below(100):02X}").replace("{n}", str(r.range(1, 9)))
-            .replace("{t}", r.choice(["hi", "abc", "X", "hello!"])))
+            .replace("{t}", r.choice(["hi", "abc", "X", "hello!"]))
+            # a string with backslashes: the assembler takes the characters between the quotes as they are
+            .replace("{e}", r.choice(["a\\\\b", "tab\\tx", "nl\\n", "q\\\"q", "\\\\"])))
 
 
 def _gen_program(r: Rng, good: bool) -> Dict[str, Any]:
@@ -182,6 +184,16 @@ def _gen_program(r: Rng, good: bool) -> Dict[str, Any]:
         # (page 0 <-> page N and page N <-> page M), so that the page rule is exercised in every direction
         stmts.append({"text": f".ORG 0x{org_pool.pop() + r.below(8):X}", "kind": "org"})
         stmts.append({"text": r.choice(NEAR) + r.choice(labels), "kind": "ins"})
+    rp = r.child("pageend")
+    if good and cur_sec != "bss" and rp.chance(1, 6):
+        # a page-local transfer whose bytes end at (or run over) a 64 KiB boundary: its page is the page of its own
+        # first byte; a label on that page is accepted, one on the page that follows is not
+        page = rp.choice([0x40000, 0x50000])
+        same = rp.chance(1, 2)
+        stmts.append({"text": f".ORG 0x{page + 0xF000 if same else page + 0x10010:X}", "kind": "org"})
+        stmts.append({"text": "NOP", "kind": "ins", "label": "L6"})
+        stmts.append({"text": f".ORG 0x{page + rp.choice([0xFFFD, 0xFFFD, 0xFFFE, 0xFFFF]):X}", "kind": "org"})
+        stmts.append({"text": rp.choice(NEAR) + "L6", "kind": "ins"})
     # the grammar is `start: (line | NEWLINE)*` with `line: label? statement?`: nothing requires a line break between
     # two statements.  One program in four puts two or three instructions on one source line (the first ones without
     # operands, so that the split between them is unambiguous)
@@ -203,6 +215,14 @@ def _gen_program(r: Rng, good: bool) -> Dict[str, Any]:
             stmts.append({"text": "NOP", "kind": "ins", "label": labels[0]})
         else:
             stmts.insert(r.below(len(stmts) + 1), {"text": "JP NOWHERE", "kind": "ins"})
+    rn = r.child("imemname")
+    if rn.chance(1, 6):
+        # a label may be called like an internal-memory register; it is still a label
+        alias = rn.choice(["ISR", "IMR", "KOL", "UCR", "LCC"])
+        for st in stmts:
+            st["text"] = st["text"].replace("L0", alias)
+            if st.get("label") == "L0":
+                st["label"] = alias
     return {"stmts": stmts, "good": good, "fault": fault}
 
 
@@ -288,7 +308,7 @@ def _model(prog: Dict[str, Any], symbols: Dict[str, int]) -> Dict[str, Any]:
         text = s["text"]
         probe_text = text
         probe_text = probe_text.replace(SMALL_LABEL, "0x10")
-        for lb in ("L0", "L1", "L2", "L3", "L4"):
+        for lb in ("L0", "L1", "L2", "L3", "L4", "L6", "ISR", "IMR", "KOL", "UCR", "LCC"):
             probe_text = probe_text.replace(lb, f"0x{addr & 0xF0000 | 0x10:X}")
         try:
             size = len(_standalone(addr, probe_text))
